@@ -49,7 +49,7 @@ func (Engine) Describe(prop string) core.Description {
 			"only page[number] and page[size] are generated as page parameters; an empty field list and an absent entry are the same selection",
 			"the fixed-point clause is monitored on sampled URLs; the seam-dependent clause (parameter / list order, map order) is what simulation decides",
 		},
-		Probes: []string{"parse-ok", "parse-error", "parse-panic", "reserved-char-in-id", "reserved-char-in-filter-label", "reserved-char-in-page-value", "reserved-char-in-filter-string", "filter-tree", "type-without-fields", "variant-params-permuted", "variant-empty-items", "relationship-url", "collection-url", "include-param", "extra-page-parameter"},
+		Probes: []string{"parse-ok", "parse-error", "reserved-char-in-id", "reserved-char-in-filter-label", "reserved-char-in-page-value", "reserved-char-in-filter-string", "filter-tree", "type-without-fields", "variant-params-permuted", "variant-empty-items", "relationship-url", "collection-url", "include-param", "extra-page-parameter"},
 	}
 }
 
